@@ -283,6 +283,45 @@ func encodings(kind string) func(Val) Val {
 	}
 }
 
+// case (ops_old ops_delta ks): the JSON laws on the real decoder.  After the two flushes the
+// target is overwritten with its own prefixes (what the pre-repair write sequence could leave
+// behind) and loaded by a fresh provider; k = -1 is the complete file.
+func torn(kind string) func(Val) Val {
+	return func(c Val) Val {
+		dir := freshDir()
+		defer os.RemoveAll(baseDir)
+		file := filepath.Join(dir, "table.json")
+		t := newTable(kind)
+		t.configure(file)
+		t.reset()
+		runOps(t, c.At(0))
+		t.flush()
+		t.reset()
+		runOps(t, c.At(1))
+		t.flush()
+		_, full := readOpt(file)
+		if !exists(file) {
+			return L()
+		}
+		outs := []Val{}
+		for _, kv := range c.At(2).List() {
+			k := int(kv.Int())
+			if k < 0 || k >= len(full) {
+				continue
+			}
+			if err := ioutil.WriteFile(file, full[:k], 0644); err != nil {
+				panic(err)
+			}
+			outs = append(outs, L(I(int64(k)), loadFresh(kind, file)))
+		}
+		if err := ioutil.WriteFile(file, full, 0644); err != nil {
+			panic(err)
+		}
+		outs = append(outs, L(I(-1), loadFresh(kind, file)))
+		return L(outs...)
+	}
+}
+
 // ---------------------------------------------------------------- crash experiment
 // snapshot of the data directory: content of the target (or absent) and of every other file
 func snapshot(dir, file string) (tgt Val, others []Val, names []string) {
@@ -480,6 +519,8 @@ var commands = map[string]func(Val) Val{
 	"C18_routes": history("r"),
 	"C18_uenc":   encodings("u"),
 	"C18_renc":   encodings("r"),
+	"C18_utorn":  torn("u"),
+	"C18_rtorn":  torn("r"),
 	"C18_ucrash": crash("u"),
 	"C18_rcrash": crash("r"),
 }
